@@ -179,7 +179,7 @@ const CONFIGS: [Cfg; 14] = [
     Cfg { name: "edit-display-only", features: "te_display", quick: true },
     Cfg { name: "all-unbounded", features: "te_parse,te_display,te_perf,te_unbounded,t_parse,t_display,t_po", quick: true },
     Cfg { name: "toml-parse-only", features: "t_parse", quick: false },
-    Cfg { name: "toml-display-only", features: "t_display", quick: false },
+    Cfg { name: "toml-display-only", features: "t_display", quick: true },
     Cfg { name: "edit-parse-serde", features: "te_parse,te_serde", quick: false },
     Cfg { name: "edit-display-serde", features: "te_display,te_serde", quick: false },
     Cfg { name: "edit-parse-perf", features: "te_parse,te_perf", quick: false },
@@ -190,7 +190,7 @@ const CONFIGS: [Cfg; 14] = [
 
 pub fn run(args: Args) -> ! {
     let mut rep = Report::new("C18", args.tier, args.seed);
-    rep.rule = "a battery crate is compiled against /repo once per feature configuration (6 quick / 14 thorough: default, perf, preserve_order, toml_edit parse-only / display-only, serde on/off, everything + unbounded, toml parse-only / display-only, with perf and preserve_order crossed in), each in its own target directory; every configuration must build. The battery is a seeded list of generated documents (valid in every lexical variant, mutants, long and repeated keys, over-limit nesting) of generated structures built through the API, of call histories on toml::Table, and of edit histories (new tables, pushed array-of-tables elements, new values, sort_values, removals) on larger parsed documents whose header order differs from their tree order. Per item and capability the binary prints a canonical dump (decoded tree; the span of every key and item of a parsed document; printed text; ...); the harness requires: dumps equal across all configurations that have the capability and, for by-construction documents, equal to the harness' own expectation; toml's key order is insertion order under preserve_order and sorted without; over-limit nesting flips from reject to accept under unbounded only. non-trivial = the item has a key longer than 15 bytes or a repeated key (perf path) or >= 2 keys out of sorted order (preserve_order path); distinct by item".into();
+    rep.rule = "a battery crate is compiled against /repo once per feature configuration (7 quick / 14 thorough: default, perf, preserve_order, toml_edit parse-only / display-only, serde on/off, everything + unbounded, toml parse-only / display-only, with perf and preserve_order crossed in), each in its own target directory; every configuration must build. The battery is a seeded list of generated documents (valid in every lexical variant, mutants, long and repeated keys, over-limit nesting) of generated structures built through the API, of call histories on toml::Table, and of edit histories (new tables, pushed array-of-tables elements, new values, sort_values, removals) on larger parsed documents whose header order differs from their tree order. Per item and capability the binary prints a canonical dump (decoded tree; the span of every key and item of a parsed document; printed text; ...); the outcome and message() of conversions of a built toml::Value into types it does not fit; ...); the harness requires: dumps equal across all configurations that have the capability and, for by-construction documents, equal to the harness' own expectation; toml's key order is insertion order under preserve_order and sorted without; over-limit nesting flips from reject to accept under unbounded only. non-trivial = the item has a key longer than 15 bytes or a repeated key (perf path) or >= 2 keys out of sorted order (preserve_order path); distinct by item".into();
     rep.assumptions = vec!["configurations are built with the repository's lock file offline; the battery program shares no code with the harness".into()];
     let n_items = args.tier.pick(2000usize, 8000usize);
     // ---- battery (seeded, feature independent)
@@ -459,13 +459,13 @@ pub fn run(args: Args) -> ! {
             reported += 1;
         };
         // tags compared for equality across configurations of the same class
-        for tag in ["P", "S", "R", "TP", "D", "DD", "B", "TD", "TB", "TO", "TR", "TM", "TQ", "E", "EB", "EP"] {
+        for tag in ["P", "S", "R", "TP", "D", "DD", "B", "TD", "TB", "TO", "TR", "TM", "TQ", "TE", "E", "EB", "EP"] {
             let mut groups: BTreeMap<String, Vec<(&str, &String)>> = BTreeMap::new();
             for (name, m) in &tables {
                 if let Some(v) = m.get(&(i, tag.to_string())) {
                     // documented exceptions define the comparison class
                     let class = match tag {
-                        "TO" | "TR" | "TD" | "TB" | "TM" => format!("po={}", is_po(name)),
+                        "TO" | "TR" | "TD" | "TB" | "TM" | "TE" => format!("po={}", is_po(name)),
                         "P" | "S" | "TP" | "R" if matches!(e, Expect::Doc { overlimit: true, .. }) => format!("unbounded={}", is_unbounded(name)),
                         _ => String::new(),
                     };
